@@ -2,7 +2,7 @@ import CircBuf.Driver
 import CircBuf.Generated.Core
 /-!
   The same driver with the element-level core taken from `Generated/Core.lean` — the definitions
-  translated from `/repo/src/lib.rs` on this run by `/verif/translate/t3_core.py`.  Running it next to
+  translated from `/repo/src/lib.rs`, `iter.rs` and `drain.rs` on this run by `/verif/translate/t3_core.py`.  Running it next to
   the real crate on the same scripts validates the translator (and the primitives of `Mem.lean` /
   `GenPrelude.lean` it targets): the two must agree whatever the source says.
 -/
@@ -30,6 +30,10 @@ def srcOps : CoreOps where
   makeContiguous := Gen.make_contiguous
   iterNew := Gen.Iter_new
   iterOverRange := Gen.Iter_over_range
+  drainNew := Gen.Drain_over_range
+  drainNext := Gen.Drain_next
+  drainNextBack := Gen.Drain_next_back
+  drainLen := Gen.Drain_len
 
 end CircBuf.Driver
 
